@@ -5,25 +5,29 @@
 EXTENDS Ledger
 
 Units(v) == v \div S
-\* valued holdings of commodity c over all asset/liability accounts at the end of day z
+\* the portfolio: asset / liability accounts that pass --account, commodities that pass --commodity
+InP(case, a) == IsAL(case.ty, a) /\ (case.flags.acctAll \/ a \in SetOf(case.flags.accts))
+InF(case, c) == case.flags.commAll \/ c \in SetOf(case.flags.commsF)
+\* valued holdings of commodity c over the portfolio accounts at the end of day z
 Holding(case, c, z) ==
   LET norm == LatestNorm(case, z)
-      q == SumOver(SetToSeq({a \in Accts(case) : IsAL(case.ty, a)}), LAMBDA a : QtyUpTo(case, a, c, z))
-  IN IF q = 0 THEN 0 ELSE IF c = case.V THEN q ELSE Units(q * norm[c])
+      q == SumOver(SetToSeq({a \in Accts(case) : InP(case, a)}), LAMBDA a : QtyUpTo(case, a, c, z))
+  IN IF q = 0 \/ ~InF(case, c) THEN 0 ELSE IF c = case.V THEN q ELSE Units(q * norm[c])
 Total(case, z) == SumOver(SetToSeq(Comms(case)), LAMBDA c : Holding(case, c, z))
 
-\* external flows of a period: user postings on portfolio (A/L) accounts whose other side is not a portfolio account
+\* external flows of a period: user postings in a portfolio commodity on a portfolio account whose other side is
+\* not a portfolio account (with a commodity filter, buying a portfolio commodity with cash is such a flow)
 HasFlow(case, lo, hi) ==
   \E n \in 1..Len(case.journal) :
      LET d == case.journal[n] IN
      d.k = "trx" /\ lo <= d.z /\ d.z <= hi /\
-     \E m \in 1..Len(d.bk) : d.bk[m].q # 0 /\ (IsAL(case.ty, d.bk[m].cr) # IsAL(case.ty, d.bk[m].dr))
+     \E m \in 1..Len(d.bk) : d.bk[m].q # 0 /\ InF(case, d.bk[m].c) /\ (InP(case, d.bk[m].cr) # InP(case, d.bk[m].dr))
 \* transactions annotated with @performance are internal performance effects, not external flows
 HasPerfTrx(case, lo, hi) ==
   \E n \in 1..Len(case.journal) : case.journal[n].k = "trx" /\ lo <= case.journal[n].z /\ case.journal[n].z <= hi /\ case.journal[n].perf
 PriceChanged(case, lo, hi) ==
   \E n \in 1..Len(case.journal) : case.journal[n].k = "price" /\ lo <= case.journal[n].z /\ case.journal[n].z <= hi
-      /\ LatestNorm(case, case.journal[n].z) # LatestNorm(case, lo - 1)
+      /\ \E c \in Comms(case) : InF(case, c) /\ LatestNorm(case, case.journal[n].z)[c] # LatestNorm(case, lo - 1)[c]
 
 \* the universe path of a commodity after the -m rule (first matching rule wins), as a pure function
 Locate(case, c) == IF c \in DOMAIN case.universe THEN case.universe[c] ELSE <<"Other", c>>
